@@ -26,3 +26,7 @@ Proof. exact lex_one. Qed.
 (* non-vacuity: two segments, the first containing a dot and a blank ("a.b c", "d") *)
 Example C07_premise_satisfiable : Forall okseg [[97; 46; 98; 32; 99]; [100]] /\ split_field (join_dot (map lit_field [[97; 46; 98; 32; 99]; [100]])) = [[97; 46; 98; 32; 99]; [100]].
 Proof. split; [repeat constructor; discriminate|vm_compute; reflexivity]. Qed.
+
+(* listed finding C07:backslash at model level: a quoted identifier is evaluated as a Python literal too: the name a\b (a, backslash, b) comes back as a, U+0008 *)
+Theorem C07_escape_evaluation_refuted : double_column (quote DQ [97; 92; 98]%N) = Ok [97; 8]%N.
+Proof. vm_compute. reflexivity. Qed.
